@@ -73,6 +73,20 @@ func (r *Rule) String() string {
 	return string(b)
 }
 
+// Clone returns a deep copy of Rule (nil and empty slices stay what they are).
+func (r *Rule) Clone() *Rule {
+	clone := *r
+	clone.StartKey = append(r.StartKey[:0:0], r.StartKey...)
+	clone.EndKey = append(r.EndKey[:0:0], r.EndKey...)
+	clone.LabelConstraints = append(r.LabelConstraints[:0:0], r.LabelConstraints...)
+	for i := range clone.LabelConstraints {
+		values := r.LabelConstraints[i].Values
+		clone.LabelConstraints[i].Values = append(values[:0:0], values...)
+	}
+	clone.LocationLabels = append(r.LocationLabels[:0:0], r.LocationLabels...)
+	return &clone
+}
+
 // Key returns (groupID, ID) as the global unique key of a rule.
 func (r *Rule) Key() [2]string {
 	return [2]string{r.GroupID, r.ID}
